@@ -306,14 +306,15 @@ def edits(spec, seed=0, max_depth=3):
             if depth >= max_depth or "-" in v["uid"] and depth == 1:
                 continue
             ids_here = [c["id"] for c in v["children"]]
-            for vid in pool:
+            for vid in [v["id"] + "Extras"] + pool:              # (an id that begins with the parent's own id is legal)
                 if vid in ids_here:
                     continue
                 subsets = [v["arches"]] if len(v["arches"]) == 1 else [v["arches"], v["arches"][:1], v["arches"][-1:]]
                 for arches in subsets:
                     for t in VARIANT_TYPES_DOC:
                         out.append(["addvar", v["uid"], vspec(vid, t, arches, parent_uid=v["uid"])])
-                break
+                if not vid.endswith("Extras"):
+                    break
     for v, _, _ in nodes:
         foreign = [a for a in TOP_ARCHES if a not in v["arches"]][:1]
         for cat in PATH_CATEGORIES:
